@@ -64,6 +64,11 @@ type c19Case struct {
 	// Feed: how the image reaches the tool. 0: a regular file; 1: through a pipe (-cim=/dev/stdin);
 	// 2: in place - the output path is the input path (the tool reads the image, then rewrites the file)
 	Feed int `json:"feed,omitempty"`
+	// Spell: how the -cim argument names the file (the default tape name is that argument, the "input CIM file name"
+	// of the flag, as given). 0: plain; 1: "./name"; 2: "d/../name"; 3: ".//name"
+	Spell int `json:"spell,omitempty"`
+	// OutPipe: the containers are written to /dev/stdout, which is a pipe (cim2cas -cas /dev/stdout | ...)
+	OutPipe bool `json:"out_pipe,omitempty"`
 }
 
 func image(c *c19Case) []byte {
@@ -155,13 +160,29 @@ func run(c *c19Case) string {
 		if c.Feed == 1 {
 			cmd.Stdin = bytes.NewReader(img)
 		}
-		out, err := cmd.CombinedOutput()
-		if err != nil {
-			return nil, fmt.Sprintf("%s %v failed: %v: %s", tool, args, err, bytes.TrimSpace(out))
+		var stdout, stderr bytes.Buffer
+		cmd.Stdout, cmd.Stderr = &stdout, &stderr
+		if err := cmd.Run(); err != nil {
+			return nil, fmt.Sprintf("%s %v failed: %v: %s", tool, args, err, bytes.TrimSpace(stderr.Bytes()))
 		}
-		return out, ""
+		return stdout.Bytes(), ""
 	}
 	cimArg, binOut, casOut := c.CimName, "out.bin", "out.cas"
+	outPipe := c.OutPipe && c.Feed != 2
+	if outPipe {
+		binOut, casOut = "/dev/stdout", "/dev/stdout"
+	}
+	switch c.Spell {
+	case 1:
+		cimArg = "./" + c.CimName
+	case 2:
+		if err := os.MkdirAll(filepath.Join(dir, "d"), 0o755); err != nil {
+			return "HARNESS: " + err.Error()
+		}
+		cimArg = "d/../" + c.CimName
+	case 3:
+		cimArg = ".//" + c.CimName
+	}
 	switch c.Feed {
 	case 1:
 		cimArg = "/dev/stdin"
@@ -179,10 +200,14 @@ func run(c *c19Case) string {
 	if c.Feed == 2 {
 		binIn = binOut
 	}
-	if _, m := exe("cim2bin", append([]string{"-cim=" + binIn, "-bin=" + binOut}, offArgs...)...); m != "" {
+	piped, m := exe("cim2bin", append([]string{"-cim=" + binIn, "-bin=" + binOut}, offArgs...)...)
+	if m != "" {
 		return m
 	}
-	got, err := os.ReadFile(filepath.Join(dir, binOut))
+	got, err := piped, error(nil)
+	if !outPipe {
+		got, err = os.ReadFile(filepath.Join(dir, binOut))
+	}
 	if err != nil {
 		return "cim2bin wrote no output: " + err.Error()
 	}
@@ -201,10 +226,13 @@ func run(c *c19Case) string {
 	} else {
 		name = casIn
 	}
-	if _, m := exe("cim2cas", args...); m != "" {
+	if piped, m = exe("cim2cas", args...); m != "" {
 		return m
 	}
-	got, err = os.ReadFile(filepath.Join(dir, casOut))
+	got = piped
+	if !outPipe {
+		got, err = os.ReadFile(filepath.Join(dir, casOut))
+	}
 	if err != nil {
 		return "cim2cas wrote no output: " + err.Error()
 	}
@@ -272,7 +300,7 @@ func TestC19(t *testing.T) {
 	}()
 	col.Rule = "cim2bin and cim2cas built from the current tree and executed on rapid-drawn inputs: load offset (edges 0, 1, 0x8000, 0xA000, 0xFFFF and uniform; passed in decimal, 0x-hex or omitted = default 0xA000), " +
 		"image length 1..min(65536-off, 8192) plus exact-fit lengths (end = 0xFFFF, incl. 65536 bytes at offset 0), contents (hashed, container-magic / ^Z / line-end bytes, ramp), name of 0..12 printable bytes " +
-		"(0 = -nam omitted: the -cim argument is the name; 1/4 with multi-byte characters, the field is six bytes), output files fresh or already existing with junk of another length; oracle = independently written container encoder, output files must be byte-equal, exit status 0, input untouched; " +
+		"(0 = -nam omitted: the -cim argument as given is the name, also when spelled ./name, d/../name, .//name; 1/4 with multi-byte characters, the field is six bytes), output files fresh, already existing with junk of another length, the input file itself, or /dev/stdout feeding a pipe; image from a file or through /dev/stdin; oracle = independently written container encoder, output files must be byte-equal, exit status 0, input untouched; " +
 		"non-trivial = length >= 2 and (offset not the default or name length != 6); distinct by hash(case)"
 	rapid.Check(t, func(t *rapid.T) {
 		var c c19Case
@@ -320,6 +348,8 @@ func TestC19(t *testing.T) {
 			c.Name = "N" + c.Name[1:]
 		}
 		c.CimName = rapid.SampledFrom([]string{"a.cim", "input.cim", "zexdoc.cim", "x", "longer-name.cim"}).Draw(t, "cimname")
+		c.Spell = rapid.SampledFrom([]int{0, 0, 0, 1, 2, 3}).Draw(t, "spell")
+		c.OutPipe = rapid.IntRange(0, 4).Draw(t, "outPipe") == 0
 		msg := run(&c)
 		col.Eval(1)
 		if msg != "" {
@@ -337,6 +367,15 @@ func TestC19(t *testing.T) {
 		}
 		if c.Stale > 0 {
 			col.Label("output-file-existed")
+		}
+		if c.OutPipe && c.Feed != 2 {
+			col.Label("output-through-pipe")
+		}
+		if c.Spell != 0 && c.Feed == 0 {
+			col.Label("cim-argument-with-directory-part")
+			if c.Name == "" {
+				col.Label("default-name-from-argument-with-directory-part")
+			}
 		}
 		switch c.Feed {
 		case 1:
